@@ -58,10 +58,33 @@ fn main() {
                 println!("call did not return within the watchdog limit: {}", desc);
                 std::process::exit(1);
             }));
-            let rep = match checks::run(&ctx) {
-                Some(r) => r,
-                None => {
+            engine::install_panic_hook();
+            let rep = match engine::guarded(|| checks::run(&ctx)) {
+                Ok(Some(r)) => r,
+                Ok(None) => {
                     eprintln!("no check for {}", ctx.id);
+                    std::process::exit(2);
+                }
+                Err(_) => {
+                    // Every call into the library is made under catch_unwind by the parts
+                    // themselves; this is only the backstop. A panic raised in the library's
+                    // own source is a violation (the call did not produce what the property
+                    // states), anything else is a defect of the machinery and no verdict.
+                    let (msg, file) = engine::LAST_PANIC_ANY.lock().map(|g| g.clone()).unwrap_or_default();
+                    let in_library = std::path::Path::new(&file).is_absolute()
+                        && !file.contains("/.cargo/")
+                        && !file.starts_with("/rustc/")
+                        && !file.contains("/rustlib/");
+                    if in_library {
+                        std::fs::create_dir_all(&ctx.replay_dir).ok();
+                        let path = format!("{}/{}-panic.json", ctx.replay_dir, ctx.id);
+                        let body = serde_json::json!({"property": ctx.id, "check": ctx.id, "oracle": "panic", "observed": msg});
+                        std::fs::write(&path, serde_json::to_string_pretty(&body).unwrap()).ok();
+                        println!("VIOLATION property={} replay={}", ctx.id, path);
+                        println!("the library panicked outside a guarded call: {}", msg);
+                        std::process::exit(1);
+                    }
+                    eprintln!("HARNESS ERROR: panic in the machinery: {}", msg);
                     std::process::exit(2);
                 }
             };
